@@ -2,6 +2,9 @@ module verifharness
 
 go 1.13
 
-require github.com/samaritan-proxy/samaritan v0.0.0
+require (
+	github.com/samaritan-proxy/samaritan v0.0.0
+	google.golang.org/grpc v1.23.1
+)
 
 replace github.com/samaritan-proxy/samaritan => /repo
